@@ -272,13 +272,22 @@ def c09_slices(tier):
         ]
     for name, q, (n, t), ids, pa, pb in polys:
         sl.append(dict(name="A_" + name, module="C09", invariants=C09_INV, consts=consts(
-            q, Shape="<<%d,%d>>" % (n, t), Ids=tla_set(ids), Who=tla_set(ids),
+            q, Shape="<<%d,%d>>" % (n, t), TB=str(len(list(pb.values())[0])), SameR1="FALSE", Ids=tla_set(ids), Who=tla_set(ids),
+            PolyA=fn({k: seq(v) for k, v in pa.items()}), PolyB=fn({k: seq(v) for k, v in pb.items()}),
+            KA="2", KB="3", DomHDKG="{4}", EMIT="TRUE")))
+    # concurrent runs with different thresholds (a contribution of the other run has another commitment length)
+    for name, q, (n, t), ids, pa, pb in [
+        ("n3_tA2_tB3", 7, (3, 2), [2, 3, 5], {2: [3, 5], 3: [1, 0], 5: [6, 2]}, {2: [4, 1, 2], 3: [2, 2, 6], 5: [5, 6, 3]}),
+        ("n3_tA3_tB2", 7, (3, 3), [1, 4, 6], {1: [3, 5, 1], 4: [1, 0, 2], 6: [6, 2, 2]}, {1: [4, 1], 4: [2, 2], 6: [5, 6]})]:
+        sl.append(dict(name="C_" + name, module="C09", invariants=C09_INV, consts=consts(
+            q, Shape="<<%d,%d>>" % (n, t), TB=str(len(list(pb.values())[0])), SameR1="TRUE", Ids=tla_set(ids),
+            Who=tla_set(ids),
             PolyA=fn({k: seq(v) for k, v in pa.items()}), PolyB=fn({k: seq(v) for k, v in pb.items()}),
             KA="2", KB="3", DomHDKG="{4}", EMIT="TRUE")))
     # n = 4: one participant under test (the fillings grow as 3^3 * 3^3 * 13^3)
     if th:
         sl.append(dict(name="B_n4t3", module="C09", invariants=C09_INV, timeout=6000, xmx="24g", consts=consts(
-            11, Shape="<<4,3>>", Ids="{1,2,3,4}", Who="{4}",
+            11, Shape="<<4,3>>", TB="3", SameR1="FALSE", Ids="{1,2,3,4}", Who="{4}",
             PolyA=fn({1: seq([3, 5, 1]), 2: seq([1, 7, 0]), 3: seq([6, 2, 9]), 4: seq([2, 2, 2])}),
             PolyB=fn({1: seq([4, 1, 1]), 2: seq([9, 2, 3]), 3: seq([5, 6, 0]), 4: seq([8, 1, 5])}),
             KA="2", KB="3", DomHDKG="{4}", EMIT="TRUE")))
@@ -289,7 +298,7 @@ C09_FATAL = {"dkg2:ok", "dkg3:ok", "dkg3:kp", "dkg3:pkp", "dkg1:ok", "*:panic"}
 
 # ------------------------------------------------------------------------ C10
 C10_INV = ["InvRelinked", "InvSameSecret", "InvRefreshOk", "InvSigning", "InvSigning2", "InvVerify", "InvRejected", "Emit"]
-ALLSCEN = '{"ok","small","unknown","tchange","nonzero"}'
+ALLSCEN = '{"ok","small","unknown","tchange","nonzero","onelen"}'
 
 
 def c10_slices(tier):
@@ -309,7 +318,7 @@ def c10_slices(tier):
     # C: two consecutive refreshes, mixed procedures; shape n = 4, t = 3 with one participant removed
     sl.append(dict(name="C_two_rounds", module="C10", invariants=C10_INV, consts=consts(
         11, Shapes="{<<4,3>>}", IdSets="{{1,2,3,4}, {2,5,7,10}}", KeyChoices="{7}", CoeffChoices="{3}",
-        Procs='{"dealer","dkg"}', Scenarios='{"ok"}', RCoeffChoices="{2}", Rounds="2", MaxExtra="1",
+        Procs='{"dealer","dkg"}', Scenarios='{"ok","onelen"}', RCoeffChoices="{2}", Rounds="2", MaxExtra="1",
         **dict(base, DomH3="{4}", DomH1="{3}"))))
     return sl
 
